@@ -368,6 +368,35 @@ func c13(c *Ctx) {
 		}
 	}
 
+	// a watch is forgotten only once it is stopped: delete(c.sources, wid) in StopWatches needs ok(w.Stop)
+	if fn := c.method("internal/engine", "ControllerEngine", "StopWatches"); fn != nil {
+		var stops []ssa.CallInstruction
+		for _, x := range cfgx.Calls(fn, nil) {
+			if strings.HasSuffix(cfgx.CalleeName(x), "StoppableSource).Stop") || x.Common().IsInvoke() && x.Common().Method.Name() == "Stop" {
+				stops = append(stops, x)
+			}
+		}
+		n := 0
+		for _, a := range w.res[fn].Accesses {
+			ci, ok := a.Instr.(ssa.CallInstruction)
+			if !ok || a.Field != "engine.controller.sources" || !a.Write {
+				continue
+			}
+			if b, isB := ci.Common().Value.(*ssa.Builtin); !isB || b.Name() != "delete" {
+				continue
+			}
+			n++
+			var gates []cfgx.Edge
+			for _, sp := range stops {
+				gates = append(gates, okEdges(sp)...)
+			}
+			c.requireCross(load.FuncName(fn)+": forgotten only after it stopped #"+itoa(n), ci, gates, "ok(w.Stop(ctx))")
+		}
+		if n == 0 {
+			c.R.Unknown(load.FuncName(fn)+": delete(c.sources)", c.pos(fn.Pos()), "the removal of a stopped watch from c.sources was not found")
+		}
+	}
+
 	c.R.Rule("R13.8", "the read-locked fast path of StartWatches agrees with the write-locked decision: an iteration is skipped only when the watch exists AND its informer is active", 2,
 		"a watch lost with its informer would never be re-established by steady-state StartWatches calls")
 	if fn := c.method("internal/engine", "ControllerEngine", "StartWatches"); fn != nil {
